@@ -15,6 +15,7 @@ import (
 	"time"
 
 	"github.com/newrelic/newrelic-php-agent/daemon/internal/newrelic/collector"
+	"github.com/newrelic/newrelic-php-agent/daemon/internal/newrelic/jsonx"
 	"github.com/newrelic/newrelic-php-agent/daemon/internal/newrelic/limits"
 	"github.com/newrelic/newrelic-php-agent/daemon/internal/newrelic/log"
 	"github.com/newrelic/newrelic-php-agent/daemon/internal/newrelic/sysinfo"
@@ -400,11 +401,13 @@ func (app *App) filterPhpPackages(data []byte) []byte {
 	buf := &bytes.Buffer{}
 	buf.WriteString(`[`)
 	for _, pkg := range newPkgs {
-		buf.WriteString(`["`)
-		buf.WriteString(pkg.Name)
-		buf.WriteString(`","`)
-		buf.WriteString(pkg.Version)
-		buf.WriteString(`",{}],`)
+		// Name and version were decoded from JSON strings and must be
+		// escaped again, or a quote or backslash corrupts the payload.
+		buf.WriteString(`[`)
+		jsonx.AppendString(buf, pkg.Name)
+		buf.WriteString(`,`)
+		jsonx.AppendString(buf, pkg.Version)
+		buf.WriteString(`,{}],`)
 	}
 
 	resJson := buf.Bytes()
